@@ -235,6 +235,9 @@ def _confirm_pair(chk, pid, base, task, rr, signature):
     else:
         chk.obligation(base + ' (pair counterexample does not reproduce natively)', 'E-MIR/fork', 'inconclusive')
 
+def _ss(x):
+    return sorted(x) + (['<depends on auxiliary variables: ' + x.depends + '>'] if x.depends else [])
+
 def native_batch(n, T, sets, phis, k, entry, texts=None, self_loops=True, ctx_formulas=None):
     from . import uni
     names = [f'v{i}' for i in range(n)]
@@ -251,11 +254,11 @@ def native_batch(n, T, sets, phis, k, entry, texts=None, self_loops=True, ctx_fo
     if multi:
         r = ans['runs'][0]
         if 'ok' not in r: out['error'] = str({k_: r[k_] for k_ in r if k_ in ('err', 'panic')}); out['native'] = [None] * len(phis); return out
-        out['native'] = [sorted(RP.states_of(dec, b)) for b in r['ok']]
+        out['native'] = [_ss(RP.states_of(dec, b)) for b in r['ok']]
     else:
         for r in ans['runs']:
             if 'ok' not in r: out['error'] = str({k_: r[k_] for k_ in r if k_ in ('err', 'panic')}); out['native'].append(None)
-            else: out['native'].append(sorted(RP.states_of(dec, r['ok'])))
+            else: out['native'].append(_ss(RP.states_of(dec, r['ok'])))
     return out
 
 def _violation_panic(chk, pid, base, task, p):
